@@ -28,6 +28,9 @@ pub struct Hist {
     pub meta_bytes: Vec<u8>,
     pub payload_path: String,
     pub payload_bytes: Vec<u8>,
+    pub size: u64,
+    pub e_tag: Option<String>,
+    pub last_modified_ms: i64,
 }
 
 pub struct World {
@@ -207,7 +210,16 @@ impl World {
                 payload_path: payload_path.clone(),
             },
         );
-        self.history.push(Hist { loc: loc.to_string(), plain: plain.clone(), meta_bytes, payload_path, payload_bytes });
+        self.history.push(Hist {
+            loc: loc.to_string(),
+            plain: plain.clone(),
+            meta_bytes,
+            payload_path,
+            payload_bytes,
+            size: head.size,
+            e_tag: head.e_tag.clone(),
+            last_modified_ms: head.last_modified.timestamp_millis(),
+        });
         self.plaintexts.push(plain);
         Ok(())
     }
